@@ -48,16 +48,24 @@ func RunDepthBy(t *CTerm, maxOps int, bySend bool) string {
 	for i := 0; i < maxOps; i++ {
 		evs = evs[:0]
 		res := func() (r string) {
+			done := false
 			defer func() {
-				if p := recover(); p != nil {
-					r = fmt.Sprintf("PANIC(%v)", p)
+				if p := recover(); !done {
+					if p == nil {
+						r = "PANIC(nil)"
+					} else {
+						r = fmt.Sprintf("PANIC(%v)", p)
+					}
 				}
 			}()
 			if bySend && i > 0 { // the first advance by MoveNext: Send on a fresh generator starts it AND sends
 				_, ok := gen.Send(0)
-				return fmt.Sprint(ok)
+				r = fmt.Sprint(ok)
+			} else {
+				r = fmt.Sprint(gen.MoveNext())
 			}
-			return fmt.Sprint(gen.MoveNext())
+			done = true
+			return
 		}()
 		m := 0
 		for j, e := range evs {
